@@ -256,6 +256,12 @@ func TestVerifC19Real(t *testing.T) {
 		2100 * time.Millisecond, -2500 * time.Millisecond, 5 * time.Second, -time.Hour, 3 * time.Hour}
 	for k := 0; k < n; k++ {
 		np := rng.Intn(3) + 1
+		if k%5 == 0 {
+			np = 1 // a network that consists of the join target only
+		}
+		if k%7 == 3 {
+			np = 8 // many peers answering at the same moment
+		}
 		var peers []*c19Server
 		var pemBytes []byte
 		maxAbs := time.Duration(0)
@@ -284,11 +290,14 @@ func TestVerifC19Real(t *testing.T) {
 			list = append(list, p.addr())
 		}
 		ndead := rng.Intn(3)
+		if k%5 == 0 {
+			ndead = 0
+		}
 		for i := 0; i < ndead; i++ {
 			list = append(list, c19Dead())
 		}
 		rng.Shuffle(len(list), func(a, b int) { list[a], list[b] = list[b], list[a] })
-		viaJoin := rng.Intn(3) == 0
+		viaJoin := rng.Intn(3) == 0 || k%5 == 0
 		t0 := time.Now()
 		var err error
 		if viaJoin {
